@@ -525,6 +525,8 @@ Hypothesis g_idem : forall v u, g (g v u) u = g v u.
 Definition hf (it : hitem) : hitem := set_value it (g (i_value it) (i_unit it)).
 
 Lemma hf_sess it : i_sess (hf it) = i_sess it. Proof. reflexivity. Qed.
+Lemma hf_idem it : hf (hf it) = hf it.
+Proof. unfold hf, set_value. simpl. rewrite g_idem. reflexivity. Qed.
 
 Lemma two_pass_fixed need1 need2 idx u nS nP nE w0 :
   (need2 = true -> need1 = true) ->
@@ -535,12 +537,103 @@ Proof.
   intro Hn. apply list_ext_nth_error. intro i.
   rewrite !ws_nth_error_map, !nth_error_refreshed, !ws_nth_error_map, !nth_error_refreshed.
   destruct (nth_error w0 i) as [it|]; [|reflexivity]. simpl. f_equal.
-  unfold refreshed, updf.
   destruct it as [o s un v d].
+  unfold refreshed, updf.
   destruct need2; [rewrite (Hn eq_refl)|destruct need1];
     destruct (Nat.eqb i nS), (Nat.eqb i nP), (Nat.eqb i nE);
     cbv beta iota delta [hf sv su set_value set_unit i_orig i_sess i_unit i_value i_descr];
     rewrite ?g_idem; reflexivity.
+Qed.
+
+(* the in-place normalisation of ~Well and ~Parameter values (writer.py steps 7, 9) *)
+Definition norm_g (l2 : las) : las :=
+  with_params (with_well l2 (map_section hf (l_well l2))) (map_section hf (l_params l2)).
+
+Hypothesis g_int : forall z u, g (VInt z) u = VInt z.
+Hypothesis g_float : forall x u, g (VFloat x) u = VFloat x.
+
+Section After.
+Variables (l : las) (need1 : bool) (nS nP nE : nat) (ii : option (list cell)).
+Let w0 := s_items (l_well l).
+Let trw := s_transforms (l_well l).
+Hypothesis HS : fidx trw k_strt w0 = Some nS.
+Hypothesis HP : fidx trw k_stop w0 = Some nP.
+Hypothesis HE : fidx trw k_step w0 = Some nE.
+Let l3 := norm_g (refresh_result l need1 nS nP nE).
+
+Lemma after_well_items :
+  s_items (l_well l3) = map hf (align (unit_of l nS) nS nP nE (set_vals need1 (index_of l) nS nP nE w0)).
+Proof. reflexivity. Qed.
+Lemma after_trw : s_transforms (l_well l3) = trw. Proof. reflexivity. Qed.
+Lemma after_index : index_of l3 = index_of l. Proof. reflexivity. Qed.
+
+Lemma after_fidx key : fidx trw key (s_items (l_well l3)) = fidx trw key w0.
+Proof. rewrite after_well_items, fidx_map by apply hf_sess. rewrite align_fidx, set_vals_fidx. reflexivity. Qed.
+
+Lemma after_unit : unit_of l3 nS = unit_of l nS.
+Proof.
+  destruct (fidx_match _ _ _ _ HS) as [itS [HnS _]].
+  assert (HW : match nth_error (s_items (l_well l3)) nS with Some it => i_unit it | None => [] end = unit_of l nS).
+  { rewrite after_well_items, ws_nth_error_map, nth_error_refreshed. fold w0. rewrite HnS. simpl.
+    unfold refreshed, updf. rewrite Nat.eqb_refl.
+    destruct (Nat.eqb nS nP), (Nat.eqb nS nE); reflexivity. }
+  unfold unit_of at 1. rewrite HW.
+  assert (HC : c0unit_of l3 = match s_items (l_curves l) with [] => [] | _ :: _ => unit_of l nS end).
+  { unfold c0unit_of, l3, norm_g, refresh_result, curves_aligned. simpl.
+    destruct (s_items (l_curves l)); reflexivity. }
+  rewrite HC. destruct (s_items (l_curves l)); [reflexivity|].
+  destruct (unit_of l nS); reflexivity.
+Qed.
+
+Lemma after_curves : curves_aligned l3 (unit_of l nS) = s_items (l_curves l3).
+Proof.
+  unfold curves_aligned, l3, norm_g, refresh_result. simpl. unfold curves_aligned.
+  destruct (s_items (l_curves l)); reflexivity.
+Qed.
+
+Lemma after_need n1 :
+  need_of (mkmlas l ii) = Some n1 ->
+  exists n2, need_of (mkmlas l3 ii) = Some n2 /\ (need1 = false -> n1 = false -> n2 = false).
+Proof.
+  unfold need_of. cbn [m_las m_index_initial].
+  destruct ii as [iv|]; [|intro H; injection H as <-; eexists; split; [reflexivity|intros _ H; discriminate H]].
+  destruct (rev iv) as [|lastc rr]; [discriminate|].
+  change (nth 0%nat (l_data l3) []) with (nth 0%nat (l_data l) []).
+  unfold item_value_by. rewrite !sect_find_nth. fold k_stop.
+  rewrite after_trw. fold trw. rewrite after_fidx. fold w0. rewrite HP.
+  destruct (fidx_match _ _ _ _ HP) as [itP [HnP _]].
+  rewrite after_well_items, ws_nth_error_map, nth_error_refreshed. fold w0. rewrite HnP. simpl.
+  intro H. injection H as H. eexists. split; [reflexivity|].
+  intros -> ->. apply orb_false_iff in H. destruct H as [H1 H2].
+  rewrite H1. simpl.
+  unfold refreshed, updf. 
+  destruct lastc as [t| |sx]; try discriminate.
+  destruct (i_value itP) as [z|x|sx|] eqn:EV; try discriminate;
+    destruct (Nat.eqb nP nS), (Nat.eqb nP nP), (Nat.eqb nP nE); simpl; rewrite EV;
+    rewrite ?g_int, ?g_float; exact H2.
+Qed.
+
+End After.
+
+(* refresh; normalise; refresh again; normalise again: nothing changes the second time *)
+Lemma refresh_norm_idem m l2 :
+  refresh m = Some l2 ->
+  exists l2', refresh (mkmlas (norm_g l2) (m_index_initial m)) = Some l2' /\ norm_g l2' = norm_g l2.
+Proof.
+  intro H. destruct (refresh_inv _ _ H) as (need1 & nS & nP & nE & Hn & HS & HP & HE & ->).
+  destruct m as [l ii]. cbn [m_las m_index_initial] in *.
+  destruct (after_need l need1 nS nP nE ii HP need1 Hn) as (n2 & Hn2 & Hrel).
+  rewrite refresh_eq. cbv zeta. cbn [m_las m_index_initial].
+  rewrite Hn2, after_trw, !after_fidx, HS, HP, HE.
+  eexists. split; [reflexivity|].
+  unfold refresh_result at 1. cbv zeta. rewrite after_unit by assumption. rewrite after_curves.
+  rewrite after_index, after_well_items.
+  unfold norm_g at 1. unfold with_params, with_well, with_curves, map_section. cbn [l_version l_well l_curves l_params l_other l_custom l_data l_engine_numpy s_items s_transforms].
+  rewrite two_pass_fixed.
+  2: { intros ->. destruct need1; [reflexivity|]. symmetry. apply Hrel; reflexivity. }
+  change (s_items (l_params (norm_g (refresh_result l need1 nS nP nE)))) with (map hf (s_items (l_params l))).
+  rewrite map_map. rewrite (map_ext _ _ (fun it => hf_idem it)).
+  reflexivity.
 Qed.
 
 End TwoPass.
